@@ -15,6 +15,9 @@ import DadiVerif.Model.AdmixFloat
                                                   rounding and the given `sum` algorithm: 1 = raises
              `c06 fsum <seq|neumaier> <numbers>`  that `sum` in binary64, exact value of the resulting double
              `c06 rnd <number>`                   binary64 round-to-nearest-even of an exact rational
+             `c06 fnview <python function name> <proportions> <grids> <offset> <strides s1,s2,..> <shape n1,n2,..> <memory N:data>`
+                                                  the function on the array OBJECT (offset / strides in elements, any sign) over
+                                                  the flat memory: `ok <returned density> <memory afterwards N:data>`
    answer  : `ok <shape:data>` | `err raises` | `err domain` | `err parse` -/
 namespace DadiVerif.Driver.Admix
 open DadiVerif DadiVerif.Proto DadiVerif.Admix
@@ -27,6 +30,8 @@ def showRes : Res → String
 def showOpt : Option Dens → String
   | some P => "ok " ++ showND (toND P)
   | none => "err raises"
+
+def ratInt? (q : Rat) : Option Int := if q.den = 1 then some q.num else none
 
 def handle (toks : List String) : Option String :=
   match toks with
@@ -94,6 +99,22 @@ def handle (toks : List String) : Option String :=
   | ["c06", "rnd", x] => some <| (do
       let a ← parseRat x
       pure ("ok " ++ showRat (rndDouble a))).getD "err parse"
+  | ["c06", "fnview", name, props, grids, off, strides, shape, mem] => some <| (do
+      let f ← parseList props
+      let gs ← parseGrids grids
+      let o ← (parseRat off).bind ratInt?
+      let st ← (← parseList strides).mapM ratInt?
+      let sh ← parseNatList shape
+      let B ← parseND mem
+      let n := B.data.size
+      let b : Buf := fun a => if 0 ≤ a ∧ a < (n : Int) then B.data.getD a.toNat 0 else 0
+      let v : View := ⟨o, st, sh⟩
+      if B.shape ≠ [n] || st.length ≠ sh.length then pure "err domain"
+      else if !(boxIdx sh).all (fun idx => decide (0 ≤ v.addr idx) && decide (v.addr idx < (n : Int))) then pure "err domain"
+      else match applyInPlaceByName name f gs b v with
+        | .ok b' out => pure ("ok " ++ showND (toND out) ++ " " ++ showND (ND.ofFn [n] fun i => b' ((i.getD 0 0 : Nat) : Int)))
+        | .raises => pure "err raises"
+        | .bad => pure "err domain").getD "err parse"
   | "c06" :: _ => some "err parse"
   | _ => none
 
